@@ -70,7 +70,8 @@ package validator
 // effect the caller can see and fails only with library errors (the C01/C03
 // content of the expansion is stated on buildList/appendNodeValidators)
 //@ func NodeValidatorList(node, rootSchema, parent)
-//@   props C01 C03
+//@   props C01 C03 C07
+//@   requires node != nil
 //@   trusted "validator list expansion: only its frame and error class are assumed here"
 //@   maypanic
 //@   defines normal ==> result == nvl(node, parent)
@@ -78,6 +79,7 @@ package validator
 
 //@ func (*arrayValidator).feed(jsonLexeme)
 //@   props C01 C02
+//@   assumes typeis(v.node_, *schema.ArrayNode) ==> (forall i :: 0 <= i && i < len(unbox(v.node_, *schema.ArrayNode).children) ==> unbox(v.node_, *schema.ArrayNode).children[i] != nil)
 //@   requires v != nil && v.itemsCounter < 18446744073709551615
 //@   requires typeis(v.node_, *schema.ArrayNode) ==> ival(v.node_) != 0 && consReady(v.node_)
 //@   maypanic
@@ -223,3 +225,15 @@ package validator
 //@   loop 0 invariant (c.list.$arr == old(c.list.$arr) || c.list.$arr > old(alloc)) && (c.addedTypeNames == old(c.addedTypeNames) || c.addedTypeNames > old(alloc))
 //@   loop 0 invariant c.list.$arr != 0 && c.addedTypeNames != nil && len(c.list) >= old(len(c.list)) && (forall j :: 0 <= j && j < old(len(c.list)) ==> c.list[j] == old(c.list[j]))
 //@   loop 0 invariant old(c.addedTypeNames) != nil ==> c.addedTypeNames == old(c.addedTypeNames)
+
+// the validator tree: arbitrary effect (not under contract)
+//@ func NewTree(list)
+//@   props C07
+//@   trusted "validator tree: arbitrary effect (nothing assumed)"
+//@   maypanic
+//@   modifies *
+//@ func (*Tree).FeedLeaves(jsonLexeme)
+//@   props C07
+//@   trusted "validator tree: arbitrary effect (nothing assumed)"
+//@   maypanic
+//@   modifies *
